@@ -395,6 +395,15 @@ func main() {
 		{"wasp/format/topic.go", "Topic", "Next", "topicNext", "(t : List Char) : Option (List Char) × List Char", []string{"optslice", "val"}},
 		{"wasp/sessions/session.go", "", "trimMountPoint", "trimMountPoint", "(mountPoint : List Char) (t : List Char) : List Char", nil},
 	})
+	// ---- literal (imperative) translations
+	idPoolLit := translateImperative("wasp/idpool.go", "Wasp.Generated.IdPoolLit", false, []impSpec{
+		{"simpleMidPool", "Get", "get", ""},
+		{"simpleMidPool", "Put", "put", ""},
+	})
+	bucketLit := translateImperative("wasp/expiration/bucket.go", "Wasp.Generated.BucketLit", true, []impSpec{
+		{"bucket", "put", "put", ""},
+		{"bucket", "delete", "delete", "len(b.data)"},
+	})
 	// ---- facts
 	extractFacts()
 	if len(failures) > 0 {
@@ -421,6 +430,8 @@ func main() {
 		os.Exit(1)
 	}
 	write("LockTable.lean", lt)
+	write("IdPoolLit.lean", idPoolLit)
+	write("BucketLit.lean", bucketLit)
 	fmt.Printf("extract ok: %d facts\n", len(facts))
 }
 
